@@ -1,15 +1,15 @@
 SPECIFICATION Spec
 CONSTANTS
   Models = {"m1"}
-  QSets = {"q1", "q2"}
+  QSets = {"q1"}
   Requests = {"mono", "pd", "empty"}
-  Slots = {"k1", "k2"}
+  Slots = {"k1"}
   Wrappers = {"w1"}
-  MaxOps = 6
+  MaxOps = 7
   EmptyReq = "empty"
   ModeReq = "mode"
   Variant = "fixed"
-  WithExp = FALSE
+  WithExp = TRUE
   TrackHeld = TRUE
   ReturnsView = FALSE
 INVARIANT Purity
